@@ -128,10 +128,13 @@ Section Member.
   Variable wscale : SC -> W -> W.                     (* noise * noise_scaling *)
   Variable sift_fn : option nat -> W -> option (list W).
 
-  (* 546-562.  [s] = None: noise_scaling is None.  None = the call raised *)
+  (* 549-550: noise * noise_scaling unless noise_scaling is None *)
+  Definition scaled (s : option SC) (noise : W) : W := match s with Some k => wscale k noise | None => noise end.
+
+  (* 546-562.  None = the call raised *)
   Definition sift_with_noise (m : noise_mode) (cap : option nat) (X : W) (s : option SC) (noise : W)
     : option (list W) :=
-    let nz := match s with Some k => wscale k noise | None => noise end in
+    let nz := scaled s noise in
     match sift_fn cap (wadd X nz) with
     | None => None
     | Some a =>
@@ -235,6 +238,10 @@ Section Member.
     (ceemd_run m s fuel cap X (map (wscale s) (to_cols n nens blk)), s1).
 End Member.
 
+(* ---- stream positions: member i's block / column ii of the row-major [n x nens] matrix ------------------ *)
+Definition block_positions (n i : nat) : list nat := seq (i * n) n.
+Definition column_positions (n nens ii : nat) : list nat := map (fun r => (r * nens + ii)%nat) (seq 0 n).
+
 (* ---- 4. executable integer instance (twin: harness/props/c08.py) -------------------------------------- *)
 Open Scope Z_scope.
 
@@ -323,3 +330,7 @@ Definition run_toy_ceemd_noise (c par : list Z) (X : list Z) : list Z :=
         | Some cols, Some _ => 0 :: render_cols cols
         | _, _ => [-1]
         end) ++ [-88888; Z.of_nat pos].
+
+(* a concrete configuration / signal used by the examples of props/Prop_C08.v *)
+Definition c08_cfg : list Z := [0; 0; 20; 1; 1; 0; 1; 8; 1; 16; 1; 2; 1; 16; 1; 2; 0].
+Definition c08_sig : list Z := [0; 40; -36; 44; -28; 36; -40; 32; -20; 12; 0; 24; -16; 8; 28; -32; 16; -4; 36; -24].
